@@ -70,6 +70,16 @@ pub fn all_ops(env: &Env, s: &str, other: &str, rec: &mut Rec, rng: &mut Rng) {
         }
     }
     flag(rec, "profile::stabilize(nickname rules)", &case, &api::stabilize_with_rules(s));
+    if !long {
+        for kind in 0..6u8 {
+            for k in 1..=5usize {
+                if kind != 3 && k > 1 {
+                    break;
+                }
+                flag(rec, &format!("profile::stabilize(synthetic rule {})", kind), &|| format!("kind={};k={};{}", kind, k, case()), &api::stabilize_synthetic(s, kind, k));
+            }
+        }
+    }
     let multibyte = s.chars().any(|c| c.len_utf8() > 1);
     if multibyte {
         let class = match nchars {
